@@ -298,6 +298,27 @@ func sweepFeed(r *hx.Run, f *feed, rnd *hx.Rand, cfg hx.Config) {
 			ds = append(ds, dmg{pos: pos, x: sc ^ f.spool[pos]})
 		}
 	}
+	// closers in place of separators: the damage that ends a document, a
+	// container or a string early and leaves the rest of the feed behind it
+	if t.wrapper == "" && t.loop != "zip" {
+		var seps []int
+		for pos, c := range f.spool {
+			if c == ',' || c == ':' || c == '"' || c == '>' || c == '<' || c == '=' {
+				seps = append(seps, pos)
+			}
+		}
+		step := 1
+		if lim := cfg.N(150, 1500); len(seps) > lim {
+			step = (len(seps) + lim - 1) / lim
+		}
+		for i := rnd.Intn(step); i < len(seps); i += step {
+			for _, c := range []byte("}]\"/>") {
+				if c != f.spool[seps[i]] && rnd.Chance(1, 2) {
+					ds = append(ds, dmg{pos: seps[i], x: c ^ f.spool[seps[i]]})
+				}
+			}
+		}
+	}
 	for i := range ds {
 		if ds[i].x != 0 {
 			ds[i].data = flipped(f.spool, ds[i].pos, ds[i].x)
